@@ -108,6 +108,22 @@ var c12Specs = []c12Spec{
 		c.Add(b)
 		return &c12World{c: c, muts: []func(){func() { a.Route(a.GET("/y").To(routeTo("/a/y"))) }, func() { c.Remove(b) }}, reqs: []h.Req{get("a", "y"), get("b", "x")}}
 	}},
+	{name: "two-removes", servers: [][]int{{0}}, mutators: [][]int{{0}, {1}}, world: func(jsr bool) *c12World {
+		c := c12Container(jsr)
+		c.Add(newWS("/a", true, "/x"))
+		b := newWS("/b", true, "/x")
+		d := newWS("/d", true, "/x")
+		c.Add(b)
+		c.Add(d)
+		return &c12World{c: c, muts: []func(){func() { c.Remove(b) }, func() { c.Remove(d) }}, reqs: []h.Req{get("a", "x")}}
+	}},
+	{name: "two-adds", servers: [][]int{{0, 1}}, mutators: [][]int{{0}, {1}}, world: func(jsr bool) *c12World {
+		c := c12Container(jsr)
+		c.Add(newWS("/a", true, "/x"))
+		b := newWS("/b", true, "/x")
+		d := newWS("/d", true, "/x")
+		return &c12World{c: c, muts: []func(){func() { c.Add(b) }, func() { c.Add(d) }}, reqs: []h.Req{get("b", "x"), get("d", "x")}}
+	}},
 	{name: "route-and-unroute", servers: [][]int{{0, 1}}, mutators: [][]int{{0, 1}}, world: func(jsr bool) *c12World {
 		c := c12Container(jsr)
 		a := newWS("/a", true, "/x", "/y")
